@@ -32,7 +32,7 @@ def dispatch (s : Sexp) : Sexp :=
       else if cmd == "registry-history" then handleRegistry args
       else if cmd == "isinst" then handleIsInst args
       else if cmd == "construct" then handleConstruct args
-      else if cmd == "c11-chain" || cmd == "c11-classify" then handleAnnot cmd args
+      else if cmd == "c11-chain" || cmd == "c11-classify" || cmd == "c11-fkind" then handleAnnot cmd args
       else if cmd.startsWith "oc-" then handleOriginCodec cmd args
       else if cmd.startsWith "o-" then handleOrigin cmd args
       else if cmd == "c16" then PyOak.SerOpts.handleC16 args
